@@ -390,7 +390,7 @@ inline int main_impl(int argc, char **argv, const char *property, bool exhaustiv
   uint64_t seed = 1;
   double scale = 1.0;
   int max_size = 100;
-  std::string replay_file, only;
+  std::string replay_file, only, prefix;
   for (int i = 1; i < argc; i++) {
     std::string a = argv[i];
     auto need = [&](const char *n) -> std::string {
@@ -408,6 +408,8 @@ inline int main_impl(int argc, char **argv, const char *property, bool exhaustiv
     else if (a == "--replay-dir") c.replay_dir = need("--replay-dir");
     else if (a == "--replay") replay_file = need("--replay");
     else if (a == "--only") only = need("--only");
+    else if (a == "--prefix") prefix = need("--prefix");
+    else if (a == "--property") c.property = need("--property");
     else if (a == "--list") {
       for (auto &s : c.subs) printf("%s %d\n", s.name.c_str(), s.cases);
       return 0;
@@ -452,10 +454,11 @@ inline int main_impl(int argc, char **argv, const char *property, bool exhaustiv
     return 2;
   }
 
-  snprintf(c.crash_path, sizeof c.crash_path, "%s/%s-crash-%d.txt", c.replay_dir.c_str(), property, (int)getpid());
+  snprintf(c.crash_path, sizeof c.crash_path, "%s/%s-crash-%d.txt", c.replay_dir.c_str(), c.property.c_str(), (int)getpid());
   std::vector<std::pair<std::string, std::string>> viol;
   for (auto &s : c.subs) {
     if (!only.empty() && s.name != only) continue;
+    if (!prefix.empty() && s.name.rfind(prefix, 0) != 0) continue;
     s.run(s, seed, scale, max_size);
     if (s.st.failed) {
       std::string p = write_replay(s);
